@@ -11,6 +11,7 @@ ID = "C14"
 TITLE = "Triangulation exactly partitions every cell polygon"
 MC = {"quick": [("MC_C14", "MC_C14.cfg", 8)], "thorough": [("MC_C14", "MC_C14_thorough.cfg", 16)]}
 TRACE = ("Trace_C14", "Trace_C14.cfg")
+THOROUGH_EXTRA_SEEDS = 2
 REQUIRED = ["Triangulate", "holes", "concave", "collinear", "clockwise", "anticlockwise", "sides-3", "sides-4", "sides-6", "sides-8",
             "cf1d", "cf2d", "shoc_simple", "shoc_standard", "arakawa", "ugrid"]
 RULE = ("one case = one dataset: structured grids of every convention with holes, and lattice meshes mixing triangles, quads, "
